@@ -84,7 +84,7 @@ func genTable(t *rapid.T, bias string) TableSc {
 	for i := 0; i < nhot; i++ {
 		hot = append(hot, rapid.SampledFrom([]int{0, 0, 1, 2, 3, 7, 8, 9, 80, 158, 159}).Draw(t, "hot"))
 	}
-	np := 10 + uniformInt(t, 30, "npeers")
+	np := 10 + uniformInt(t, deep(t, 30), "npeers")
 	usedAddr := map[string]bool{}
 	for i := 0; i < np; i++ {
 		var p TPeer
@@ -152,7 +152,7 @@ func genTable(t *rapid.T, bias string) TableSc {
 			Decoy: rapid.SampledFrom([]string{"absent", "other"}).Draw(t, "op.decoy"), RO: rapid.Bool().Draw(t, "op.ro")}
 		return op
 	}
-	nops := 10 + uniformInt(t, 70, "nops")
+	nops := 10 + uniformInt(t, deep(t, 70), "nops")
 	for i := 0; i < nops; i++ {
 		var op TOp
 		r := uniformInt(t, 100, "op.kind")
